@@ -151,7 +151,14 @@ fn pathtok(t: &mut Tape, origin: (i64, i64)) -> String {
     let nseg = 1 + t.below(3);
     for si in 0..nseg {
         if si > 0 || t.chance(92) {
-            toks.push((*t.pick(&["B", "L", "P", "C", "B3", "X", "B0", "Bx", "b", "P", "B-2", "L9"])).to_string());
+            // (non-ASCII type tokens: only the first token of a path may start with a non-ASCII character,
+            // a later one would not open a segment)
+            let pool: &[&str] = if si == 0 {
+                &["B", "L", "P", "C", "B3", "X", "B0", "Bx", "b", "P", "B-2", "L9", "\u{142}", "\u{14c}3", "\u{150}", "\u{ff22}", "\u{e9}", "\u{4e0a}", "\u{1F3B5}2"]
+            } else {
+                &["B", "L", "P", "C", "B3", "X", "B0", "Bx", "b", "P", "B-2", "L9"]
+            };
+            toks.push((*t.pick(pool)).to_string());
         }
         let np = if t.chance(10) { 0 } else { 1 + t.below(4) };
         for _ in 0..np {
